@@ -5,7 +5,7 @@ fails with it.  Writes result JSON to /tmp/seed/val/<id>_<k>.json and removes th
 import json, os, re, shutil, subprocess, sys
 
 def sh(cmd, cwd, timeout=1500):
-    p = subprocess.run(["bash", "-c", f"ulimit -v 10000000; timeout -k 5 {timeout} {cmd}"], cwd=cwd, capture_output=True, text=True, errors="replace")
+    p = subprocess.run(["bash", "-c", f"ulimit -v {os.environ.get('VALIDATE_ULIMIT', '10000000')}; timeout -k 5 {timeout} {cmd}"], cwd=cwd, capture_output=True, text=True, errors="replace")
     return p.returncode, p.stdout + p.stderr
 
 def demo(wt, d, k):
